@@ -97,6 +97,14 @@ func TestC18(t *testing.T) {
 		}
 		c18Gate(t, run, g, desc)
 	}
+	ndisp := run.N(3, 40)
+	for g := 0; g < ndisp; g++ {
+		desc := map[string]any{"part": "dispose-vs-probe-results", "g": g}
+		if !run.Mine(n+nsim+ngate+g, desc) {
+			continue
+		}
+		liveDispose(t, run, g, desc)
+	}
 	for i := 0; i < n; i++ {
 		rng := run.Rand(i)
 		sc := c18Scenario{Idx: i, Clients: 16 + rng.IntN(40), Operators: 3 + rng.IntN(4), Targets: 6 + rng.IntN(7), Duration: 2500 * time.Millisecond, ProbeIv: time.Duration(5+rng.IntN(16)) * time.Millisecond}
@@ -555,6 +563,111 @@ func c18Gate(t *testing.T, run *Run, g int, desc any) {
 	})
 	if passes.Load() < 1000 {
 		run.Inconclusive("gate storm: only %d requests passed", passes.Load())
+	}
+}
+
+// liveDispose (used by C17 and C18): commands against probe results that change state. Real time,
+// real sockets: two-target services whose targets alternate between passing and failing every
+// probe (interval 5ms, so every probe result changes the target's state and is reported to its
+// load balancer), a short real delay at the hook just before that report, and operators that
+// deploy, redeploy (which disposes the replaced targets) and remove without rest. Bounded
+// progress: every command must return within its own timeouts plus a minute; one that does not is
+// judged from the goroutine dump.
+func liveDispose(t *testing.T, run *Run, g int, desc any) {
+	run.Eval()
+	RestoreHTTPDefaults()
+	dir, err := os.MkdirTemp("", "vh-disp-")
+	if err != nil {
+		run.Inconclusive("tempdir: %v", err)
+		return
+	}
+	defer os.RemoveAll(dir)
+	var hookN atomic.Int64
+	hook := func(point string, args ...any) {
+		if point == "target.health.notifying" && hookN.Add(1)%3 == 0 {
+			time.Sleep(2 * time.Millisecond)
+		}
+	}
+	server.VerifHook.Store(&hook)
+	defer server.VerifHook.Store(nil)
+	var servers []*httptest.Server
+	var targets []string
+	for i := 0; i < 6; i++ {
+		var n atomic.Int64
+		s := httptest.NewServer(http.HandlerFunc(func(w http.ResponseWriter, r *http.Request) {
+			if r.URL.Path == "/up" && n.Add(1)%2 == 0 {
+				w.WriteHeader(500)
+				return
+			}
+			w.WriteHeader(200)
+		}))
+		servers = append(servers, s)
+		targets = append(targets, strings.TrimPrefix(s.URL, "http://"))
+	}
+	defer func() {
+		for _, s := range servers {
+			s.CloseClientConnections()
+			s.Close()
+		}
+	}()
+	router := server.NewRouter(filepath.Join(dir, "state.json"))
+	o := server.TargetOptions{HealthCheckConfig: server.HealthCheckConfig{Path: "/up", Interval: 5 * time.Millisecond, Timeout: time.Second}, ResponseTimeout: 2 * time.Second}
+	names := []string{"d0", "d1"}
+	ctx, cancel := context.WithTimeout(context.Background(), 2*time.Second)
+	defer cancel()
+	var wg sync.WaitGroup
+	var cmds atomic.Int64
+	stuck := make(chan string, 8)
+	for op := 0; op < 2; op++ {
+		r := rand.New(rand.NewPCG(run.Seed+uint64(g), uint64(op)+733))
+		name := names[op]
+		wg.Add(1)
+		go func() {
+			defer wg.Done()
+			for ctx.Err() == nil {
+				kind := []string{"deploy", "deploy", "deploy", "remove"}[r.IntN(4)]
+				ret := make(chan struct{})
+				go func() {
+					defer close(ret)
+					switch kind {
+					case "deploy":
+						so := server.ServiceOptions{Hosts: []string{name + ".example"}}
+						router.DeployService(name, []string{targets[r.IntN(len(targets))], targets[r.IntN(len(targets))]}, so, o, 300*time.Millisecond, 50*time.Millisecond)
+					case "remove":
+						router.RemoveService(name)
+					}
+				}()
+				select {
+				case <-ret:
+					cmds.Add(1)
+				case <-time.After(61 * time.Second): // deploy-timeout 0.3s + drain-timeout 0.05s, and a minute
+					stuck <- kind
+					return
+				}
+			}
+		}()
+	}
+	wg.Wait()
+	select {
+	case kind := <-stuck:
+		buf := make([]byte, 1<<20)
+		dump := string(buf[:runtime.Stack(buf, true)])
+		if v := classifyDump(dump); v == "deadlock" {
+			run.Violate("command-never-returned:"+kind, kind+" (deploy-timeout 300ms, drain-timeout 50ms) had not returned after a minute, with targets whose every probe changes their state: goroutines of the proxy are blocked on its locks", desc, strings.Split(trunc(dump, 60000), "\n"))
+			panic("a command of the proxy never returned (dispose scenario): abandoning this monitor process")
+		} else {
+			run.Inconclusive("dispose scenario: a %s did not return within a minute but the dump is not a lock deadlock (%s)", kind, v)
+		}
+		return
+	default:
+	}
+	for _, n := range names {
+		router.RemoveService(n)
+	}
+	run.Count("dispose_commands", int(cmds.Load()))
+	run.Count("dispose_state_changing_probe_reports", int(hookN.Load()))
+	if hookN.Load() < 50 || cmds.Load() < 4 {
+		run.Inconclusive("dispose scenario: only %d state-changing probe reports and %d commands", hookN.Load(), cmds.Load())
 	}
 }
 
